@@ -110,7 +110,19 @@ func (vc *VC) fieldCallName(v ssa.Value) string {
 }
 
 func (vc *VC) fieldCallTarget(v ssa.Value) string {
-	return vc.p.db.FieldCalls[vc.fieldCallName(v)]
+	t := vc.p.db.FieldCalls[vc.fieldCallName(v)]
+	if i := strings.Index(t, "\x00"); i >= 0 {
+		return t[:i]
+	}
+	return t
+}
+
+func (vc *VC) fieldCallGhost(v ssa.Value) string {
+	t := vc.p.db.FieldCalls[vc.fieldCallName(v)]
+	if i := strings.Index(t, "\x00"); i >= 0 {
+		return t[i+1:]
+	}
+	return ""
 }
 
 // fieldCallRecv returns the receiver bound into a function-valued field: the
@@ -124,7 +136,7 @@ func (vc *VC) fieldCallRecv(fr *Frame, v ssa.Value) *Val {
 	if fn == nil || fn.Signature.Recv() == nil || obj.T == "" {
 		return nil
 	}
-	name := "G.owner_" + sanitize(vc.fieldCallName(v))
+	name := "G." + vc.fieldCallGhost(v)
 	h := vc.get(name, "(Array Int Int)")
 	return &Val{T: fmt.Sprintf("(select %s %s)", h, obj.T), Ty: fn.Signature.Recv().Type()}
 }
@@ -411,7 +423,7 @@ func (vc *VC) applyContractX(fr *Frame, spec *FuncSpec, name string, sig *types.
 			vc.oblige("call-pre", name+":"+vc.clauseLabel("requires", rq, i), t, pos, "precondition of "+name+": "+rq.Src)
 		}
 	}
-	if contains(spec.LockHeld, "*") && !vc.lockChecksOff && len(vc.held) == 0 {
+	if contains(spec.LockHeld, "*") && !vc.lockChecksOff && len(vc.st.held) == 0 {
 		vc.oblige("lock", "callee-needs-lock:"+name, "false", pos, name+" must be called with the protecting lock held")
 	}
 	// frame
@@ -689,7 +701,7 @@ func (vc *VC) lockOp(fr *Frame, recv *Val, suffix []string, op string, pos token
 	}
 	switch op {
 	case "lock", "rlock":
-		if vc.held[id] {
+		if vc.st.held[id] {
 			vc.oblige("lock", "not-held", "false", pos, "lock acquired while already held (self-deadlock)")
 		}
 		for _, m := range vc.lockProtected(ls, self) {
@@ -701,12 +713,12 @@ func (vc *VC) lockOp(fr *Frame, recv *Val, suffix []string, op string, pos token
 				vc.assume(t)
 			}
 		}
-		vc.held[id] = true
+		vc.st.held[id] = true
 		if op == "rlock" {
-			vc.held[id+"#r"] = true
+			vc.st.held[id+"#r"] = true
 		}
 	case "unlock", "runlock":
-		if !vc.held[id] && vc.discovery == 0 {
+		if !vc.st.held[id] && vc.discovery == 0 {
 			vc.oblige("lock", "held", "false", pos, "unlock of a lock that is not held")
 		}
 		env := vc.lockEnv(ls, self, fr.entrySt)
@@ -715,8 +727,8 @@ func (vc *VC) lockOp(fr *Frame, recv *Val, suffix []string, op string, pos token
 				vc.oblige("unlock-inv", vc.clauseLabel(strings.Join(ls.Path, "."), inv, i), t, pos, "lock invariant re-established at unlock: "+inv.Src)
 			}
 		}
-		delete(vc.held, id)
-		delete(vc.held, id+"#r")
+		delete(vc.st.held, id)
+		delete(vc.st.held, id+"#r")
 	}
 }
 
@@ -738,11 +750,11 @@ func (vc *VC) lockWriteCheck(l *Loc, pos token.Pos) {
 	if len(specs) == 0 {
 		return
 	}
-	for id := range vc.held {
+	for id := range vc.st.held {
 		if strings.HasSuffix(id, "#r") {
 			continue
 		}
-		if vc.held[id+"#r"] {
+		if vc.st.held[id+"#r"] {
 			continue
 		}
 		for _, ls := range specs {
@@ -767,7 +779,7 @@ func (vc *VC) lockReadCheck(l *Loc, pos token.Pos) {
 	if len(specs) == 0 {
 		return
 	}
-	for id := range vc.held {
+	for id := range vc.st.held {
 		for _, ls := range specs {
 			if strings.HasPrefix(strings.TrimSuffix(id, "#r"), ls.TypeKey+"."+strings.Join(ls.Path, ".")+"@") {
 				return
